@@ -1,13 +1,13 @@
 package eval
 
 import (
-	"net/url"
 	"fmt"
 	"go/ast"
 	"go/constant"
 	"go/token"
 	"go/types"
 	"math"
+	"net/url"
 	"path"
 	"sort"
 	"strconv"
@@ -126,6 +126,11 @@ func (ev *Evaluator) fail(pos token.Pos, format string, args ...interface{}) {
 		msg = fmt.Sprintf("%s:%d: %s", shortFile(p.Filename), p.Line, msg)
 	}
 	panic(&EvalError{Pos: pos, Msg: msg})
+}
+
+// Failf aborts the evaluation as undecidable (for models registered by rules).
+func (ev *Evaluator) Failf(pos token.Pos, format string, args ...interface{}) {
+	ev.fail(pos, format, args...)
 }
 
 func shortFile(f string) string {
